@@ -8,6 +8,7 @@
   statement.
 -/
 import SA.Proofs.DnsServer
+import SA.Proofs.DnsOpen
 
 namespace SA.Props.C13
 open SA.Go SA.Go.Res SA.DnsServer
@@ -67,6 +68,71 @@ theorem C13_ids_distinct (cd : Codec) (hT : cd.Total) (dom : List Nat) (ops : Li
   have a := hI.liveOk i sid hi
   have b := hI.liveOk j sid hj
   exact ⟨a.2.symm.trans b.2, a.2⟩
+
+/-! ## a successful open takes a free identifier — also when the address is already known
+
+  `C13_ids_distinct` speaks about slots.  The statements below speak about what a client is TOLD: the
+  identifier in a successful version answer.  They hold for every state and every source address, in
+  particular for an address that already owns live sessions (two tunnel clients behind one forwarder,
+  retransmitted version requests). -/
+
+/-- regenerated fact: `newUser` has no return path that hands out a session which was in `connections`
+    already; the only session it returns is the one it has just created in an empty slot and sent to `accept`
+    (the model's `newUser`).  Fails to compile when such a path appears. -/
+theorem C13_newUser_only_fresh : SA.Gen.newUserReturnsExisting = false := by decide
+
+/-- **every successful open returns an identifier that was free immediately before, and a new session**:
+    if the server answers a message with `v:OK:uid` then, in the state the message met, no live session held
+    `uid` (so `uid` differs from the identifier of every live session, whatever their addresses); afterwards
+    live slot `uid` holds a session object that did not exist before (heap index = old heap size), owned by
+    the sender, with identifier `uid` and empty queues; every other live slot is as it was. -/
+theorem C13_open_returns_free_id (cd : Codec) (dom : List Nat) (σ σ' : Srv) (m : Msg) (uid : Nat)
+    (h : onMessage cd dom σ m = ok (σ', .version uid)) :
+    σ.live[uid]? = some none ∧
+    (∀ j sid, σ.live[j]? = some (some sid) → j ≠ uid) ∧
+    σ'.live[uid]? = some (some σ.heap.length) ∧
+    σ'.heap.length = σ.heap.length + 1 ∧
+    (σ'.sess σ.heap.length).uid = uid ∧ (σ'.sess σ.heap.length).owner = m.addr ∧
+    (σ'.sess σ.heap.length).inq = {} ∧ (σ'.sess σ.heap.length).outq = {} ∧
+    (∀ j, j ≠ uid → σ'.live[j]? = σ.live[j]?) := by
+  obtain ⟨σ1, ht, hn⟩ := onMessage_version cd dom σ σ' m uid h
+  obtain ⟨hl, hh⟩ := touched_live ht
+  obtain ⟨h1, h2, h3, h4, h5, _, _⟩ := newUser_opens hn
+  rw [hl] at h1 h5
+  rw [hh] at h2 h3 h4
+  refine ⟨h1, ?_, h2, h3, by rw [h4], by rw [h4], by rw [h4], by rw [h4], h5⟩
+  intro j sid hj e
+  subst e
+  rw [h1] at hj
+  simp at hj
+
+/-- **two opens, two sessions** — also from one address: two successful version requests in a row (from any
+    addresses, equal or not) are answered with different identifiers, and afterwards both identifiers are live
+    with two different session objects. -/
+theorem C13_two_opens_two_sessions (cd : Codec) (dom : List Nat) (σ σ1 σ2 : Srv) (m1 m2 : Msg) (u1 u2 : Nat)
+    (h1 : onMessage cd dom σ m1 = ok (σ1, .version u1)) (h2 : onMessage cd dom σ1 m2 = ok (σ2, .version u2)) :
+    u1 ≠ u2 ∧ σ2.live[u1]? = some (some σ.heap.length) ∧ σ2.live[u2]? = some (some (σ.heap.length + 1)) := by
+  obtain ⟨_, _, a3, a4, _, _, _, _, _⟩ := C13_open_returns_free_id cd dom σ σ1 m1 u1 h1
+  obtain ⟨b1, b2, b3, _, _, _, _, _, b9⟩ := C13_open_returns_free_id cd dom σ1 σ2 m2 u2 h2
+  have hne : u1 ≠ u2 := b2 u1 _ a3
+  refine ⟨hne, ?_, ?_⟩
+  · rw [b9 u1 hne]; exact a3
+  · rw [b3, a4]
+
+/-- the allocation of the seeded change (written out; not today's code): before looking for a free slot, hand out a
+    live session of the same address that has not moved payload yet -/
+def newUserReusing (σ : Srv) (addr : Nat) : Srv × Option Nat :=
+  match σ.live.filterMap id |>.find? (fun sid => (σ.sess sid).owner = addr ∧ (σ.sess sid).inq.next = 0 ∧ (σ.sess sid).outq.next = 0) with
+  | some sid => (σ.modify sid (fun s => { s with last := σ.now }), some (σ.sess sid).uid)
+  | none => newUser σ addr
+
+/-- kernel-checked: with that allocation two opens from one address get the same identifier and share one session
+    object, while today's `newUser` gives them 0 and 1 and two objects -/
+theorem C13_witness_shared_address :
+    (newUserReusing (newUserReusing Srv.init 7).1 7).2 = some 0 ∧ (newUserReusing Srv.init 7).2 = some 0 ∧
+    (newUserReusing (newUserReusing Srv.init 7).1 7).1.heap.length = 1 ∧
+    (newUser (newUser Srv.init 7).1 7).2 = some 1 ∧ (newUser (newUser Srv.init 7).1 7).1.heap.length = 2 := by
+  decide +kernel
 
 /-! ## spoofed and stale identifiers -/
 
@@ -303,12 +369,37 @@ def sampleDom : List Nat := [116, 46, 99, 111]
 
 example : msgUid sampleDom { addr := 2, qtype := 10, name := sampleName } = some 0 := by decide
 
+/-- a version request `v7wlaaiaaaa.t.co.` (protocol version in the body `aaiaaaa`, Base32 → 00 10 00 00) and the
+    codec oracle for it -/
+def sampleOpen : List Nat := [118, 55, 119, 108, 97, 97, 105, 97, 97, 97, 97, 46, 116, 46, 99, 111, 46]
+def sampleCodec : Codec := oracleCodec [(84, [97, 97, 105, 97, 97, 97, 97], some [0, 16, 0, 0])]
+
+/-- the hypotheses of `C13_open_returns_free_id` / `C13_two_opens_two_sessions` are met by two version requests
+    from ONE address against a fresh listener: identifiers 0 and 1 -/
+def ansOf : Res (Srv × Ans) → Option Ans
+  | .ok (_, a) => some a
+  | .panic => none
+def stateOf : Res (Srv × Ans) → Srv
+  | .ok (σ, _) => σ
+  | .panic => Srv.init
+
+example :
+    ansOf (onMessage sampleCodec sampleDom Srv.init { addr := 1, qtype := 10, name := sampleOpen }) = some (.version 0) ∧
+    ansOf (onMessage sampleCodec sampleDom
+      (stateOf (onMessage sampleCodec sampleDom Srv.init { addr := 1, qtype := 10, name := sampleOpen }))
+      { addr := 1, qtype := 10, name := sampleOpen }) = some (.version 1) := by
+  decide +kernel
+
 example : safeLoops 300 [(1, 1800, [(1, false)])] = true ∧ safeLoops 300 [(1, 1800, [(0, false)])] = false := by decide
 
 end SA.Props.C13
 
 #print axioms SA.Props.C13.C13_reachable_invariant
 #print axioms SA.Props.C13.C13_ids_distinct
+#print axioms SA.Props.C13.C13_newUser_only_fresh
+#print axioms SA.Props.C13.C13_open_returns_free_id
+#print axioms SA.Props.C13.C13_two_opens_two_sessions
+#print axioms SA.Props.C13.C13_witness_shared_address
 #print axioms SA.Props.C13.C13_spoof_rejected
 #print axioms SA.Props.C13.C13_closed_id_inert
 #print axioms SA.Props.C13.C13_foreign_message_preserves
